@@ -3,6 +3,7 @@ package authorize
 import (
 	"io"
 	"net/http"
+	"slices"
 	"time"
 
 	"github.com/go-jose/go-jose/v4/jwt"
@@ -121,8 +122,13 @@ func jarFromUnsignedRequestObject(
 	request,
 	error,
 ) {
-	jarAlgorithms := jarAlgorithms(ctx, c)
-	parsedJWT, err := jwt.ParseSigned(reqObject, jarAlgorithms)
+	// An unsigned request object is only acceptable when "none" is among the
+	// algorithms allowed for the client, and then only if it declares "none".
+	if !slices.Contains(jarAlgorithms(ctx, c), goidc.None) {
+		return request{}, goidc.NewError(goidc.ErrorCodeInvalidResquestObject,
+			"unsigned request objects are not allowed")
+	}
+	parsedJWT, err := jwt.ParseSigned(reqObject, []goidc.SignatureAlgorithm{goidc.None})
 	if err != nil {
 		return request{}, goidc.WrapError(goidc.ErrorCodeInvalidResquestObject,
 			"could not parse the request object", err)
